@@ -130,4 +130,33 @@ def litKind (t : List Char) : Nat :=
 /-- the value NUMBER gives to a recognised literal text -/
 def numVal (t : List Char) : Py.Val := if litKind t = 1 then .int t else .float t
 
+/-! ## a line given as plain text: the hypotheses of the line theorems as a decidable check -/
+
+/-- the bool a BOOL spelling stands for -/
+def boolOf (t : List Char) : Option Bool := (boolSpellings.find? (fun sp => sp.1 == t)).map (·.2)
+
+/-- is the text `t` a literal of the form the theorems about `ty` quantify over? -/
+def litOk (ty : BaseType) (t : List Char) : Bool :=
+  match ty with
+  | .INT => litKind t == 1
+  | .NUMBER => litKind t != 0
+  | .STRICTFLOAT => litKind t == 2
+  | .FLOAT => (floatLit? t).isSome
+  | .BOOL => (boolOf t).isSome
+  | .STRING => false
+
+/-- the value `ty` is to give to the literal text `t` -/
+def litVal (ty : BaseType) (t : List Char) : Py.Val :=
+  match ty with
+  | .INT => .int t
+  | .NUMBER => numVal t
+  | .BOOL => .bool ((boolOf t).getD false)
+  | _ => .float t
+
+/-- whitespace before every literal, literals of the right form, separated, trailing whitespace
+(driver op `tokens`, field `items`: the harness's own idea of "this case satisfies the property's
+hypothesis" is compared with this) -/
+def lineHyp (ty : BaseType) (items : List (Item (List Char))) (tail : List Char) : Bool :=
+  items.all (fun i => i.ws.all isWs && litOk ty i.lit) && items.tail.all (fun i => !i.ws.isEmpty) && tail.all isWs
+
 end BaseTypes
